@@ -33,6 +33,10 @@ class Untranslatable(Exception):
     """The construct is outside the translator: the obligation must be reported inconclusive (fail closed)."""
 
 
+class _NoMerge(Exception):
+    """two paths have different shapes: they stay forked"""
+
+
 # ======================================================================================================================
 # regular expressions
 # ======================================================================================================================
@@ -247,7 +251,21 @@ class ArrBackend:
             return x
         if _is_py_int(x.n) and x.n == 0:
             return y
+        if _is_py_int(x.n) and _is_py_int(y.n):
+            # both lengths concrete: the result is written down directly (no fresh array, no definitions)
+            if x.n + y.n > N - 1:
+                raise Untranslatable("concatenation longer than the array bound")
+            return self.from_chars([x.at(i) for i in range(x.n)] + [y.at(j) for j in range(y.n)])
         r = self.fresh("cat", "arr")
+        if _is_py_int(y.n):
+            # short concrete right operand: its characters are placed by comparing the index with len(x) — no read of
+            # y at a symbolic index
+            for i in range(N):
+                tail = z3.IntVal(0)
+                for j in reversed(range(y.n)):
+                    tail = z3.If(x.n == i - j, y.at(j), tail)
+                self.defs.append(z3.Select(r, i) == z3.If(i < x.n, x.at(i), tail))
+            return BStr(x.n + y.n, r)
         for i in range(N):
             self.defs.append(z3.Select(r, i) == z3.If(i < x.n, x.at(i), y.at(i - x.n)))
         return BStr(x.n + y.n, r)
@@ -467,8 +485,9 @@ Outcome = Tuple[Any, str, Any]  # (guard: z3 Bool, kind, value)
 class Interp:
     def __init__(self, backend, functions: Optional[Dict[str, ast.AST]] = None,
                  intrinsics: Optional[Dict[str, Callable[..., Any]]] = None, globals_: Optional[Dict[str, Any]] = None,
-                 unroll: int = 3) -> None:
+                 unroll: int = 3, merge: bool = False) -> None:
         self.be = backend
+        self.merge = merge      # state merging: paths that fall through a statement with the same shape are joined by ite
         self.functions = dict(functions or {})
         self.intrinsics = dict(intrinsics or {})
         self.globals = dict(globals_ or {})
@@ -553,7 +572,7 @@ class Interp:
         if isinstance(node, ast.Await):
             return self.eval(node.value, env, guard)
         if isinstance(node, ast.JoinedStr):
-            out = None
+            parts = []
             for part in node.values:
                 if isinstance(part, ast.Constant):
                     v = self.lift_str(part.value)
@@ -563,6 +582,13 @@ class Interp:
                     v = self.lift_str(self.eval(part.value, env, guard))
                 else:
                     raise Untranslatable("f-string part")
+                # concatenation is associative: adjacent parts of concrete length are joined first (cheap, exact)
+                if parts and isinstance(v, BStr) and isinstance(parts[-1], BStr) and _is_py_int(v.n) and _is_py_int(parts[-1].n):
+                    parts[-1] = be.concat(parts[-1], v)
+                else:
+                    parts.append(v)
+            out = None
+            for v in parts:
                 out = v if out is None else be.concat(out, v)
             return out if out is not None else self.lift_str("")
         if isinstance(node, ast.BinOp):
@@ -777,7 +803,8 @@ class Interp:
         return out if out is not None else self.lift_str("")
 
     # ------------------------------------------------------------------ statements
-    def run_function(self, fn: ast.AST, args: Dict[str, Any], guard=True) -> List[Outcome]:
+    def run_function(self, fn: ast.AST, args: Dict[str, Any], guard=True, with_env: bool = False) -> List[Any]:
+        """guarded outcomes (guard, kind, value) of the function body; ``with_env`` appends the final environment"""
         env = dict(args)
         params = [a.arg for a in fn.args.args]  # type: ignore[attr-defined]
         defaults = fn.args.defaults  # type: ignore[attr-defined]
@@ -791,7 +818,7 @@ class Interp:
         for g, kind, val, _env in self.block(list(fn.body), env, guard):  # type: ignore[attr-defined]
             if kind == "fall":
                 kind, val = "return", None
-            outs.append((g, kind, val))
+            outs.append((g, kind, val, _env) if with_env else (g, kind, val))
         return outs
 
     def block(self, stmts, env, guard):
@@ -800,12 +827,91 @@ class Interp:
             return [(guard, "fall", None, env)]
         first, rest = stmts[0], stmts[1:]
         results = []
-        for g, kind, val, e in self.stmt(first, env, guard):
+        outs = self.stmt(first, env, guard)
+        if self.merge and len(outs) > 1:
+            outs = self.merge_falls(outs, guard)
+        for g, kind, val, e in outs:
             if kind == "fall":
                 results.extend(self.block(rest, e, g))
             else:
                 results.append((g, kind, val, e))
         return results
+
+    # ------------------------------------------------------------------ state merging
+    def ite_value(self, t, a, b):
+        """a value that equals ``a`` where ``t`` holds and ``b`` elsewhere; ``_NoMerge`` if the two are of different shapes
+        (the paths then stay forked — merging is an optimisation, never a semantic change)"""
+        if a is b:
+            return a
+        if isinstance(a, bool) and isinstance(b, bool):
+            if a == b:
+                return a
+            return z3.If(t, z3.BoolVal(a), z3.BoolVal(b))
+        if _is_py_int(a) and _is_py_int(b):
+            if a == b:
+                return a
+            return z3.If(t, z3.IntVal(a), z3.IntVal(b))
+        if isinstance(a, str) and isinstance(b, str) and a == b:
+            return a
+        strish = lambda v: isinstance(v, (str, BStr))  # noqa: E731
+        if strish(a) and strish(b) and self.be.kind == "arr":
+            A, B = self.lift_str(a), self.lift_str(b)
+            n = A.n if (_is_py_int(A.n) and _is_py_int(B.n) and A.n == B.n) else z3.If(
+                t, A.n if not _is_py_int(A.n) else z3.IntVal(A.n), B.n if not _is_py_int(B.n) else z3.IntVal(B.n))
+            arr = A.a if A.a.eq(B.a) else z3.If(t, A.a, B.a)
+            return BStr(n, arr)
+        boolish = lambda v: isinstance(v, bool) or (isinstance(v, z3.ExprRef) and z3.is_bool(v))  # noqa: E731
+        if boolish(a) and boolish(b):
+            return z3.If(t, zguard(a), zguard(b))
+        if self._intlike(a) and self._intlike(b):
+            return z3.If(t, a if not _is_py_int(a) else z3.IntVal(a), b if not _is_py_int(b) else z3.IntVal(b))
+        if isinstance(a, z3.ExprRef) and isinstance(b, z3.ExprRef) and a.sort().eq(b.sort()):
+            return a if a.eq(b) else z3.If(t, a, b)
+        if isinstance(a, list) and isinstance(b, list) and len(a) == len(b):
+            return [self.ite_value(t, x, y) for x, y in zip(a, b)]
+        if isinstance(a, PyTuple) and isinstance(b, PyTuple) and len(a.items) == len(b.items):
+            return PyTuple([self.ite_value(t, x, y) for x, y in zip(a.items, b.items)])
+        raise _NoMerge()
+
+    def merge_envs(self, t, ea, eb):
+        """environment that is ``ea`` where t holds and ``eb`` elsewhere.  Hidden path state (keys starting with ``__``:
+        ordinals of stub calls) must be identical; the two paths must bind the same names."""
+        if set(ea) != set(eb):
+            raise _NoMerge()
+        out = {}
+        for k in ea:
+            if k.startswith("__"):
+                if not (type(ea[k]) is type(eb[k]) and ea[k] == eb[k]):
+                    raise _NoMerge()
+                out[k] = ea[k]
+            else:
+                out[k] = self.ite_value(t, ea[k], eb[k])
+        return out
+
+    def merge_falls(self, outs, total):
+        """join the fall-through outcomes of one statement where their environments have the same shape.  ``outs``
+        partition ``total`` (the guard the statement was executed under): if everything joins into one path its guard is
+        ``total`` itself."""
+        groups = []  # [guard, env]
+        others = []
+        for g, kind, val, e in outs:
+            if kind != "fall":
+                others.append((g, kind, val, e))
+                continue
+            for grp in groups:
+                try:
+                    # the new path is tested first: within Or(grp, g) exactly one of the two holds
+                    env = self.merge_envs(zguard(g), e, grp[1])
+                except _NoMerge:
+                    continue
+                grp[0] = self._or(grp[0], g)
+                grp[1] = env
+                break
+            else:
+                groups.append([g, e])
+        if len(groups) == 1 and not others:
+            groups[0][0] = total
+        return [(g, "fall", None, e) for g, e in groups] + others
 
     def stmt(self, node, env, guard):  # noqa: C901
         if isinstance(node, ast.Expr):
@@ -820,11 +926,13 @@ class Interp:
                 raise Untranslatable("multiple assignment targets")
             value_node = node.value
             results = []
-            for g, val in self.eval_forking(value_node, env, guard):
-                if isinstance(val, tuple) and len(val) == 2 and val[0] == "__raise__":
-                    results.append((g, "raise", val[1], env))
-                    continue
+            for g, val, hidden in self.eval_forking(value_node, env, guard):
                 e2 = dict(env)
+                if hidden:
+                    e2.update(hidden)
+                if isinstance(val, tuple) and len(val) == 2 and val[0] == "__raise__":
+                    results.append((g, "raise", val[1], e2))
+                    continue
                 self.bind(targets[0], val, e2)
                 results.append((g, "fall", None, e2))
             return results
@@ -832,11 +940,15 @@ class Interp:
             if node.value is None:
                 return [(guard, "return", None, env)]
             out = []
-            for g, val in self.eval_forking(node.value, env, guard):
+            for g, val, hidden in self.eval_forking(node.value, env, guard):
+                e2 = env
+                if hidden:
+                    e2 = dict(env)
+                    e2.update(hidden)
                 if isinstance(val, tuple) and len(val) == 2 and val[0] == "__raise__":
-                    out.append((g, "raise", val[1], env))
+                    out.append((g, "raise", val[1], e2))
                 else:
-                    out.append((g, "return", val, env))
+                    out.append((g, "return", val, e2))
             return out
         if isinstance(node, ast.Raise):
             name = "Exception"
@@ -905,16 +1017,24 @@ class Interp:
                     args[p] = self.eval(a, env, guard)
                 for k in inner.keywords:
                     args[k.arg] = self.eval(k.value, env, guard)
+                # hidden path state (``__``-prefixed keys: the ordinals intrinsics keep of stub calls made so far on this
+                # path) flows INTO the callee and back OUT with each of its outcomes — a call is not a fresh path
+                for k, v in env.items():
+                    if k.startswith("__"):
+                        if k in args:
+                            raise Untranslatable(f"parameter name {k} clashes with hidden path state")
+                        args[k] = v
                 out = []
-                for g, kind, val in self.run_function(fn, args, guard):
+                for g, kind, val, e in self.run_function(fn, args, guard, with_env=True):
+                    hidden = {k: v for k, v in e.items() if k.startswith("__")}
                     if kind == "return":
-                        out.append((g, val))
+                        out.append((g, val, hidden))
                     elif kind == "raise":
-                        out.append((g, ("__raise__", val)))
+                        out.append((g, ("__raise__", val), hidden))
                     else:
                         raise Untranslatable("loop cutoff inside an inlined call")
                 return out
-        return [(guard, self.eval(node, env, guard))]
+        return [(guard, self.eval(node, env, guard), None)]
 
     def bind(self, target, val, env) -> None:
         if isinstance(target, ast.Name):
